@@ -20,7 +20,7 @@ TRUSTED = ['Coq 8.16.1 kernel + vm_compute', 'harness/p02.py oracle (tableschema
 ASSUMES = ['conforming typed input', 'well-typed parameters (domain of the property)']
 
 KINDS = ['restricted_set_type', 'restricted_delete', 'restricted_rename', 'add_field', 'add_computed', 'select', 'delete', 'rename', 'find_replace', 'set_type', 'validate', 'filter', 'sort', 'dedup',
-         'unpivot', 'concat', 'concat_pk', 'duplicate', 'join', 'join_keep', 'join_fmt', 'join_self', 'delete_res', 'update_resource', 'update_schema', 'update_package', 'row_fn']
+         'unpivot', 'concat', 'concat_pk', 'duplicate', 'join', 'join_keep', 'join_fmt', 'join_self', 'frac_last', 'add_computed_mixed', 'concat_nonadj', 'delete_res', 'update_resource', 'update_schema', 'update_package', 'row_fn']
 
 
 def base_rows(i, n):
@@ -41,6 +41,10 @@ def gen_cases(rng, tier):
     for a_ in range(4):
         cases.append({'kind': 'pipeline', 'sizes': [6, 4], 'steps': [{'t': 'join_keep', 'a': a_}]})
         cases.append({'kind': 'pipeline', 'sizes': [6, 4], 'steps': [{'t': 'join_keep', 'a': a_}, {'t': 'restricted_set_type', 'a': a_}]})
+    for a_ in range(4):
+        cases.append({'kind': 'pipeline', 'sizes': [4, 3], 'steps': [{'t': 'frac_last', 'a': 0}, {'t': 'add_computed_mixed', 'a': a_}]})
+    cases.append({'kind': 'pipeline', 'sizes': [3, 2, 4], 'steps': [{'t': 'concat_nonadj', 'a': 0}]})
+    cases.append({'kind': 'pipeline', 'sizes': [3, 2, 4, 1], 'steps': [{'t': 'concat_nonadj', 'a': 0}, {'t': 'add_field', 'a': 1}]})
     # plain iterable sources longer than the inference sample whose column shows its first value late (or never):
     # what is declared must still fit every row
     for i in range(max(4, n // 15)):
@@ -83,6 +87,17 @@ def build(case):
             op = ['sum', 'avg', 'constant', 'format'][a]
             spec = {'operation': op, 'target': nm, 'source': ['id', 'id'] if op in ('sum', 'avg') else [], 'with': 'c-{id}' if op == 'format' else 'k'}
             steps.append(DF.add_computed_field([spec]))
+            for r in res:
+                r['fields'].append(nm)
+        elif t == 'frac_last' and len(res) >= 2 and 'id' in res[-1]['fields'] and res[-1].get('idtype', 'integer') == 'integer':
+            # the same column name with different types in different resources
+            steps.append(DF.set_type('id', type='number', resources=res[-1]['name'],
+                                     transform=lambda v: None if v is None else decimal.Decimal(v) + decimal.Decimal('0.5')))
+            res[-1]['idtype'] = 'number'
+        elif t == 'add_computed_mixed' and allhave('id') and all(r.get('idtype', 'integer') in ('integer', 'number') for r in res):
+            # one step over all resources: each resource's new field is typed from that resource's own source columns
+            nm = fresh('acm')
+            steps.append(DF.add_computed_field([{'operation': ['sum', 'max', 'min', 'multiply'][a], 'target': nm, 'source': ['id']}]))
             for r in res:
                 r['fields'].append(nm)
         elif t == 'select' and allhave('id') and allhave('grp'):
@@ -138,7 +153,7 @@ def build(case):
             steps.append(DF.unpivot([{'name': 'num', 'keys': {kn: 'num'}}], [{'name': kn, 'type': 'string'}], {'name': vn, 'type': 'number'},
                                     regex=False, resources=first['name']))
             first['fields'] = [f for f in first['fields'] if f != 'num'] + [kn, vn]
-        elif t == 'concat' and len(res) >= 2 and allhave('id') and allhave('grp'):
+        elif t == 'concat' and len(res) >= 2 and allhave('id') and allhave('grp') and len(set(r.get('idtype', 'integer') for r in res)) == 1:
             nm = fresh('cat')
             steps.append(DF.concatenate({'id': [], 'grp': []}, target={'name': nm}))
             res = [{'name': nm, 'fields': ['id', 'grp']}]
@@ -162,6 +177,12 @@ def build(case):
             res[1]['fields'] = ['txt', 'id', nm]
             res[1]['idtype'] = 'sparse'
             res.pop(0)
+        elif t == 'concat_nonadj' and len(res) >= 3 and all(f in r['fields'] for r in (res[0], res[2]) for f in ('id', 'grp')):
+            # a selection that is not consecutive in the package: to be refused, or else handled consistently
+            nm, key = fresh('cat'), fresh('key')
+            steps.append(DF.concatenate({key: ['id'], 'grp': []}, target={'name': nm}, resources=[res[0]['name'], res[2]['name']]))
+            res = [{'name': nm, 'fields': [key, 'grp']}] + [r for i, r in enumerate(res) if i not in (0, 2)]
+            case['may_reject'] = True
         elif t == 'duplicate':
             nm = fresh('dup')
             steps.append(DF.duplicate(source=first['name'], target_name=nm, duplicate_to_end=bool(a % 2)))
@@ -229,6 +250,10 @@ def typed_source(case):
 def run_impl(case):
     srcs = [base_rows(i, n) for i, n in enumerate(case['sizes'])]
     out = {}
+    case = dict(case)
+    build(case)
+    if case.get('may_reject'):
+        out['may_reject'] = True
     try:
         with quiet():
             ds = Flow(typed_source(case), *build(case)).datastream()
@@ -294,6 +319,8 @@ def run_impl(case):
 
 def oracle(case, out):
     if 'error' in out:
+        if out.get('may_reject') and ('AssertionError' in out['error'] or 'consecutive' in out['error']):
+            return None       # the documented refusal of a non-consecutive selection
         return 'a well-typed pipeline failed: %s' % out['error']
     if out['ndesc'] != out['nstreams']:
         return '%d resource descriptors but %d row streams' % (out['ndesc'], out['nstreams'])
